@@ -17,6 +17,8 @@ Import ListNotations.
 Local Open Scope N_scope.
 
 (* 1. The answer is the replay plan (Replay.plan): for all stores and ranges the events are exactly the
+      [state hypothesis: `ready` demands only (s_state s =? resend_request_received) = false -- EVERY other
+       state answers, see 14-16 for the states enforce itself changes]
       plan's gap fills and resent records in order, next_send afterwards is the plan's, the state is
       `continuous` again and the store is untouched. *)
 Theorem c18_replay_plan : forall sc decode now s seqnum m,
@@ -196,3 +198,69 @@ Theorem c18_nonvacuous_oracle :
   map fst (p_store (s_per s_good)) = [2; 3] /\ s_next_send s_good = 4 /\ req_begin m_good = 2 /\ req_end m_good = 0.
 Proof. exact nonvacuous_oracle. Qed.
 Print Assumptions c18_nonvacuous_oracle.
+
+(* 14. EVERY ESTABLISHED SUB-STATE.  enforce lets the request through and leaves (s1, e1) -- s1 differs from s
+       when the request's own number is ahead (16).  Whatever the state s1 is, other than
+       resend_request_received (test_request_sent, resend_request_sent, logoff_sent, ...), the answer is e1
+       followed by the whole plan, and it ends with a gap fill announcing the next_send left behind: a valid
+       request is never dropped.  (A session that returns without output in state X <> 13 contradicts this.) *)
+Theorem c18_replay_plan_any_state : forall sc decode now s seqnum m r s1 e1,
+  schema_ok sc = true -> nosoh (s_snd s1) = true -> nosoh (s_tgt s1) = true ->
+  enforce sc now seqnum m s = (inl r, s1, e1) ->
+  (s_state s1 =? st_resend_request_received) = false ->
+  s_closed s1 = false -> s_batch s1 = [] -> ready_store decode s1 ->
+  range_bad (req_begin m) (req_end m) = false ->
+  exists s' evs w a,
+    handle_resend_request sc decode now seqnum m s = (inl true, s', (e1 ++ evs ++ [EOut w])%list) /\
+    (evs ++ [EOut w])%list =
+      out sc now decode s1 (fst (plan (p_store (s_per s1)) (s_next_send s1) (req_begin m) (req_end m))) /\
+    parse_out w = IGap a (s_next_send s') /\
+    s_next_send s' = snd (plan (p_store (s_per s1)) (s_next_send s1) (req_begin m) (req_end m)) /\
+    s_state s' = st_continuous /\ p_store (s_per s') = p_store (s_per s1).
+Proof. exact replay_plan_any_state. Qed.
+Print Assumptions c18_replay_plan_any_state.
+
+(* 15. ... and the one exception, exactly as in the code: while a replay is running (state
+       resend_request_received after enforce) the request produces nothing beyond what enforce emitted. *)
+Theorem c18_unanswered_only_while_replaying : forall sc decode now s seqnum m r s1 e1,
+  enforce sc now seqnum m s = (inl r, s1, e1) ->
+  (s_state s1 =? st_resend_request_received) = true ->
+  handle_resend_request sc decode now seqnum m s = (inl true, s1, e1).
+Proof. exact unanswered_only_while_replaying. Qed.
+Print Assumptions c18_unanswered_only_while_replaying.
+
+(* 16. The request's own MsgSeqNum is above the expected one (state continuous, CompIDs right): enforce sends
+       OUR ResendRequest [next_recv, 0] (a new message: next_send + 1) and moves to resend_request_sent; the
+       answer follows, planned from next_send + 1, and the state is continuous afterwards. *)
+Theorem c18_replay_plan_ahead : forall sc decode now s seqnum m,
+  nosoh (sc_begin sc) = true -> is_admin sc mt_sequence_reset = true -> is_admin sc mt_resend_request = true ->
+  s_state s = st_continuous ->
+  compid_check m s = (inl tt, s, []) ->
+  beq (m_type m) mt_sequence_reset = false ->
+  s_next_recv s < seqnum ->
+  s_closed s = false -> s_batch s = [] -> ready_store decode s ->
+  range_bad (req_begin m) (req_end m) = false ->
+  exists s' s1,
+    s_state s1 = st_resend_request_sent /\ s_next_send s1 = s_next_send s + 1 /\
+    handle_resend_request sc decode now seqnum m s =
+      (inl true, s',
+       (EOut (encode sc (fst (stamp sc now s (generate_resend_request sc (s_next_recv s) 0)))) ::
+        out sc now decode s1 (fst (plan (p_store (s_per s)) (s_next_send s + 1) (req_begin m) (req_end m))))) /\
+    s_next_send s' = snd (plan (p_store (s_per s)) (s_next_send s + 1) (req_begin m) (req_end m)) /\
+    s_state s' = st_continuous /\ p_store (s_per s') = p_store (s_per s).
+Proof. exact replay_plan_ahead. Qed.
+Print Assumptions c18_replay_plan_ahead.
+
+(* 17. Witnesses on the complete model: store {2,3}, request [2,0] delivered (a) with its number ahead, (b) in
+       state test_request_sent, (c) in state resend_request_sent: answered in full, JUDGED and accepted by the
+       oracle; the same traces with the answer left out (a session that drops the request) are rejected. *)
+Theorem c18_states_judged :
+  judged_ok_dropped_bad line_ahead = (true, 1, false) /\
+  judged_ok_dropped_bad line_testreq = (true, 1, false) /\ nth 7 (states_of line_testreq) 0 = st_test_request_sent /\
+  judged_ok_dropped_bad line_sent = (true, 1, false) /\ nth 7 (states_of line_sent) 0 = st_resend_request_sent /\
+  map brief (answer_items schema0 line_ahead) =
+    [IMsg [(dec T_MsgType, [50]); (dec T_MsgSeqNum, dec 4)];
+     IMsg [(dec T_MsgType, [68]); (dec T_MsgSeqNum, dec 2)]; IMsg [(dec T_MsgType, [68]); (dec T_MsgSeqNum, dec 3)];
+     IGap 4 5].
+Proof. exact states_judged. Qed.
+Print Assumptions c18_states_judged.
